@@ -159,9 +159,17 @@ _seed('alt11', ('1.1',), HEAD + '''>
 </xs:sequence></xs:complexType></xs:element></xs:schema>''',
       '<r><v k="i">12</v><v k="d" n="1">2001-02-03</v><v>free</v><v k="o" n="0">t</v></r>')
 
+_seed('fixed', ('1.0', '1.1'), HEAD + '''>
+<xs:element name="r"><xs:complexType><xs:sequence>
+ <xs:element name="fd" type="xs:date" fixed="2000-01-01"/><xs:element name="fym" type="xs:gYearMonth" fixed="2000-01" minOccurs="0"/>
+ <xs:element name="fdu" type="xs:duration" fixed="P1D"/><xs:element name="dd" type="xs:dateTime" default="2000-01-01T00:00:00" minOccurs="0"/>
+</xs:sequence><xs:attribute name="fy" type="xs:gYear" fixed="1999"/><xs:attribute name="fdt" type="xs:dateTime" fixed="2000-01-01T00:00:00Z"/>
+<xs:attribute name="fp" type="xs:duration" fixed="P1Y"/></xs:complexType></xs:element></xs:schema>''',
+      '<r fy="1999" fdt="2000-01-01T00:00:00Z" fp="P1Y"><fd>2000-01-01</fd><fym>2000-01</fym><fdu>P1D</fdu><dd/></r>')
+
 SEED_ORDER = ['attrs', 'xsitype', 'nil', 'keys', 'wildcards', 'lists', 'dates', 'qnames', 'mixed', 'namespaces',
-              'assert11', 'alt11']
-assert sorted(SEED_ORDER) == sorted(SEEDS) and len(SEED_ORDER) == 12
+              'assert11', 'alt11', 'fixed']
+assert sorted(SEED_ORDER) == sorted(SEEDS) and len(SEED_ORDER) == 13
 
 # --- corpus -----------------------------------------------------------------------------------
 
